@@ -13,6 +13,8 @@ from vk import sysrun, topo as T
 def make_exc(kind):
     if kind == 'raise':
         return RuntimeError('boom (simulator handler failed)')
+    if kind == 'typeerr':
+        return TypeError("unsupported operand type(s) for +: 'int' and 'NoneType' (simulator handler failed)")
     if kind == 'reset':
         return ConnectionResetError('connection reset by peer')
     return asyncio.IncompleteReadError(b'', 4)
@@ -79,9 +81,11 @@ def jobs(tier):
     for name, culprits, lazy in plans:
         t = cur[name]
         for culprit in culprits:
-            for kind in ('raise', 'reset', 'eof'):
+            for kind in ('raise', 'typeerr', 'reset', 'eof'):
                 for stage in ('after', 'before'):
                     if q and stage == 'before' and kind != 'reset':
+                        continue
+                    if kind == 'typeerr' and (stage == 'before' or (q and not lazy)):
                         continue
                     if q and (not lazy or len(t['types']) > 2) and kind == 'eof':
                         continue
